@@ -877,6 +877,8 @@ func (a *act) sliceOp(in *ssa.Slice, guard string, st *State) Val {
 		v := Val{T: a.bind(in, t, SSlice), S: SSlice, GT: in.Type()}
 		// index translation between a sub-slice and its parent (creates the parent index term for E-matching)
 		fx.ctx.Assert(fmt.Sprintf("(forall ((i Int)) (! (= (sidx %s i) (sidx %s (+ %s i))) :pattern ((sidx %s i))))", v.T, x.T, lo, v.T))
+		// and back: an index term of the parent creates the sub-slice index term (witness for "some element of the rest")
+		fx.ctx.Assert(fmt.Sprintf("(forall ((i Int)) (! (= (sidx %s i) (sidx %s (- i %s))) :pattern ((sidx %s i))))", x.T, v.T, lo, x.T))
 		return v
 	case *types.Pointer:
 		arr := xt.Elem().Underlying().(*types.Array)
